@@ -101,13 +101,13 @@ theorem find_grouping_local {n : Stmt} {name : String} {g : Stmt}
   rw [List.mem_filter] at hm
   exact ⟨by simpa using hm.2, hm.1, by simpa using ha⟩
 
-theorem sound_all (reg : Registry) : ∀ fuel : Nat,
-    (∀ root scope name seen r, (findGrouping reg fuel root scope name seen).1 = some r →
+theorem sound_all (reg : Registry) (linked : List Nat) : ∀ fuel : Nat,
+    (∀ root scope name seen r, (findGrouping reg linked fuel root scope name seen).1 = some r →
       LocalRef reg root scope r) ∧
-    (∀ root scope name seen r, (fgScope reg fuel root scope name seen).1 = some r →
+    (∀ root scope name seen r, (fgScope reg linked fuel root scope name seen).1 = some r →
       LocalRef reg root scope r) ∧
-    (∀ imports name seen r, (fgImports reg fuel imports name seen).1 = some r → HopRef reg r) ∧
-    (∀ includes name seen r, (fgIncludes reg fuel includes name seen).1 = some r →
+    (∀ imports name seen r, (fgImports reg linked fuel imports name seen).1 = some r → HopRef reg r) ∧
+    (∀ includes name seen r, (fgIncludes reg linked fuel includes name seen).1 = some r →
       HopRef reg r) := by
   intro fuel
   induction fuel with
@@ -190,35 +190,35 @@ theorem sound_all (reg : Registry) : ∀ fuel : Nat,
 /-- A successful `findGrouping` returns a `grouping` substatement `g` of the head of `gscope`, and
 `(groot, gscope)` is the caller's root with a suffix of the caller's scope, or a loaded module with
 its one-element scope. -/
-theorem findGrouping_sound {reg : Registry} {fuel : Nat} {root : Mod} {scope : List Stmt}
+theorem findGrouping_sound {reg : Registry} {linked : List Nat} {fuel : Nat} {root : Mod} {scope : List Stmt}
     {name : String} {seen : List String} {g : Stmt} {groot : Mod} {gscope : List Stmt}
-    (h : (findGrouping reg fuel root scope name seen).1 = some (g, groot, gscope)) :
+    (h : (findGrouping reg linked fuel root scope name seen).1 = some (g, groot, gscope)) :
     g.kw = "grouping" ∧ (∃ n up, gscope = n :: up ∧ g ∈ n.subs) ∧
     ((groot = root ∧ ∃ pre, scope = pre ++ gscope) ∨
       (groot ∈ reg.mods ∧ gscope = [groot.stmt])) :=
-  (sound_all reg fuel).1 _ _ _ _ _ h
+  (sound_all reg linked fuel).1 _ _ _ _ _ h
 
-theorem fgScope_sound {reg : Registry} {fuel : Nat} {root : Mod} {sc : List Stmt}
+theorem fgScope_sound {reg : Registry} {linked : List Nat} {fuel : Nat} {root : Mod} {sc : List Stmt}
     {name : String} {seen : List String} {g : Stmt} {groot : Mod} {gscope : List Stmt}
-    (h : (fgScope reg fuel root sc name seen).1 = some (g, groot, gscope)) :
+    (h : (fgScope reg linked fuel root sc name seen).1 = some (g, groot, gscope)) :
     g.kw = "grouping" ∧ (∃ n up, gscope = n :: up ∧ g ∈ n.subs) ∧
     ((groot = root ∧ ∃ pre, sc = pre ++ gscope) ∨
       (groot ∈ reg.mods ∧ gscope = [groot.stmt])) :=
-  (sound_all reg fuel).2.1 _ _ _ _ _ h
+  (sound_all reg linked fuel).2.1 _ _ _ _ _ h
 
-theorem fgImports_sound {reg : Registry} {fuel : Nat} {imports : List Stmt}
+theorem fgImports_sound {reg : Registry} {linked : List Nat} {fuel : Nat} {imports : List Stmt}
     {name : String} {seen : List String} {g : Stmt} {groot : Mod} {gscope : List Stmt}
-    (h : (fgImports reg fuel imports name seen).1 = some (g, groot, gscope)) :
+    (h : (fgImports reg linked fuel imports name seen).1 = some (g, groot, gscope)) :
     g.kw = "grouping" ∧ (∃ n up, gscope = n :: up ∧ g ∈ n.subs) ∧
     groot ∈ reg.mods ∧ gscope = [groot.stmt] :=
-  (sound_all reg fuel).2.2.1 _ _ _ _ h
+  (sound_all reg linked fuel).2.2.1 _ _ _ _ h
 
-theorem fgIncludes_sound {reg : Registry} {fuel : Nat} {includes : List Stmt}
+theorem fgIncludes_sound {reg : Registry} {linked : List Nat} {fuel : Nat} {includes : List Stmt}
     {name : String} {seen : List String} {g : Stmt} {groot : Mod} {gscope : List Stmt}
-    (h : (fgIncludes reg fuel includes name seen).1 = some (g, groot, gscope)) :
+    (h : (fgIncludes reg linked fuel includes name seen).1 = some (g, groot, gscope)) :
     g.kw = "grouping" ∧ (∃ n up, gscope = n :: up ∧ g ∈ n.subs) ∧
     groot ∈ reg.mods ∧ gscope = [groot.stmt] :=
-  (sound_all reg fuel).2.2.2 _ _ _ _ h
+  (sound_all reg linked fuel).2.2.2 _ _ _ _ h
 
 /-! ## The step equations in combinator form -/
 
@@ -231,60 +231,60 @@ def orElse (a : Res) (k : List String → Res) : Res :=
   | (none, s) => k s
 
 /-- The owner hop of `fgScope`. -/
-def viaOwner (reg : Registry) (fuel : Nat) (root : Mod) (cond : Bool) (name : String)
+def viaOwner (reg : Registry) (linked : List Nat) (fuel : Nat) (root : Mod) (cond : Bool) (name : String)
     (seen : List String) : Res :=
   if cond && root.isSub then
     match (root.belongsTo?.bind reg.getModule) with
     | some owner =>
       if seen.contains owner.name then (none, seen)
-      else findGrouping reg fuel owner [owner.stmt] name (seen ++ [owner.name])
+      else findGrouping reg linked fuel owner [owner.stmt] name (seen ++ [owner.name])
     | none => (none, seen)
   else (none, seen)
 
 /-- The import hop of `fgImports`. -/
-def importHit (reg : Registry) (fuel : Nat) (i : Stmt) (name : String) (seen : List String) : Res :=
+def importHit (reg : Registry) (linked : List Nat) (fuel : Nat) (i : Stmt) (name : String) (seen : List String) : Res :=
   let ip := (i.argOf? "prefix").getD ""
   if name.startsWith (ip ++ ":") && !((name.drop (ip.length + 1)).toString.contains ':') then
     match reg.findModule false i with
-    | some im => findGrouping reg fuel im [im.stmt] (name.drop (ip.length + 1)).toString seen
+    | some im => findGrouping reg linked fuel im [im.stmt] (name.drop (ip.length + 1)).toString seen
     | none => (none, seen)
   else (none, seen)
 
 /-- The include hop of `fgIncludes`. -/
-def includeHit (reg : Registry) (fuel : Nat) (i : Stmt) (name : String) (seen : List String) : Res :=
+def includeHit (reg : Registry) (linked : List Nat) (fuel : Nat) (i : Stmt) (name : String) (seen : List String) : Res :=
   match reg.findModule true i with
   | none => (none, seen)
   | some im =>
     if seen.contains im.name then (none, seen)
-    else findGrouping reg fuel im [im.stmt] name (seen ++ [im.name])
+    else findGrouping reg linked fuel im [im.stmt] name (seen ++ [im.name])
 
 def isModKw (n : Stmt) : Bool := n.kw == "module" || n.kw == "submodule"
 
-theorem fgScope_cons (reg : Registry) (fuel : Nat) (root : Mod) (n : Stmt) (up : List Stmt)
+theorem fgScope_cons (reg : Registry) (linked : List Nat) (fuel : Nat) (root : Mod) (n : Stmt) (up : List Stmt)
     (name : String) (seen : List String) :
-    fgScope reg (fuel + 1) root (n :: up) name seen =
+    fgScope reg linked (fuel + 1) root (n :: up) name seen =
       match (n.all "grouping").find? (·.arg == name) with
       | some g => (some (g, root, n :: up), seen)
       | none =>
-        orElse (fgImports reg fuel (if isModKw n then n.all "import" else []) name seen) fun seen =>
-        orElse (fgIncludes reg fuel
-          (if isModKw n && !name.contains ':' then n.all "include" else []) name seen) fun seen =>
-        orElse (viaOwner reg fuel root (isModKw n && !name.contains ':') name seen) fun seen =>
-        fgScope reg fuel root up name seen := by
+        orElse (fgImports reg linked fuel (if isModKw n && linked.contains root.seq then n.all "import" else []) name seen) fun seen =>
+        orElse (fgIncludes reg linked fuel
+          (if isModKw n && linked.contains root.seq && !name.contains ':' then n.all "include" else []) name seen) fun seen =>
+        orElse (viaOwner reg linked fuel root (isModKw n && !name.contains ':') name seen) fun seen =>
+        fgScope reg linked fuel root up name seen := by
   rw [fgScope.eq_3]
   rfl
 
-theorem fgImports_cons (reg : Registry) (fuel : Nat) (i : Stmt) (rest : List Stmt)
+theorem fgImports_cons (reg : Registry) (linked : List Nat) (fuel : Nat) (i : Stmt) (rest : List Stmt)
     (name : String) (seen : List String) :
-    fgImports reg (fuel + 1) (i :: rest) name seen =
-      orElse (importHit reg fuel i name seen) fun seen => fgImports reg fuel rest name seen := by
+    fgImports reg linked (fuel + 1) (i :: rest) name seen =
+      orElse (importHit reg linked fuel i name seen) fun seen => fgImports reg linked fuel rest name seen := by
   rw [fgImports.eq_3]
   rfl
 
-theorem fgIncludes_cons (reg : Registry) (fuel : Nat) (i : Stmt) (rest : List Stmt)
+theorem fgIncludes_cons (reg : Registry) (linked : List Nat) (fuel : Nat) (i : Stmt) (rest : List Stmt)
     (name : String) (seen : List String) :
-    fgIncludes reg (fuel + 1) (i :: rest) name seen =
-      orElse (includeHit reg fuel i name seen) fun seen => fgIncludes reg fuel rest name seen := by
+    fgIncludes reg linked (fuel + 1) (i :: rest) name seen =
+      orElse (includeHit reg linked fuel i name seen) fun seen => fgIncludes reg linked fuel rest name seen := by
   rw [fgIncludes.eq_3]
   rfl
 
@@ -354,14 +354,14 @@ theorem unseen_lt {reg : Registry} {s : List String} {m : Mod} (hm : m ∈ reg.m
 
 /-- A fuel-indexed result that is either a constant miss or one call of `findGrouping` on a loaded
 module with a strictly smaller potential `name.length + unseen`. -/
-def IsHop (reg : Registry) (hit : Nat → Res) (name : String) (seen : List String) : Prop :=
+def IsHop (reg : Registry) (linked : List Nat) (hit : Nat → Res) (name : String) (seen : List String) : Prop :=
   (∀ fuel, hit fuel = (none, seen)) ∨
   ∃ im name' seen', im ∈ reg.mods ∧ seen <+: seen' ∧
     name'.length + unseen reg seen' < name.length + unseen reg seen ∧
-    ∀ fuel, hit fuel = findGrouping reg fuel im [im.stmt] name' seen'
+    ∀ fuel, hit fuel = findGrouping reg linked fuel im [im.stmt] name' seen'
 
-theorem importHit_isHop (reg : Registry) (i : Stmt) (name : String) (seen : List String) :
-    IsHop reg (fun fuel => importHit reg fuel i name seen) name seen := by
+theorem importHit_isHop (reg : Registry) (linked : List Nat) (i : Stmt) (name : String) (seen : List String) :
+    IsHop reg linked (fun fuel => importHit reg linked fuel i name seen) name seen := by
   unfold importHit
   simp only
   split
@@ -374,8 +374,8 @@ theorem importHit_isHop (reg : Registry) (i : Stmt) (name : String) (seen : List
     · exact Or.inl fun _ => rfl
   · exact Or.inl fun _ => rfl
 
-theorem includeHit_isHop (reg : Registry) (i : Stmt) (name : String) (seen : List String) :
-    IsHop reg (fun fuel => includeHit reg fuel i name seen) name seen := by
+theorem includeHit_isHop (reg : Registry) (linked : List Nat) (i : Stmt) (name : String) (seen : List String) :
+    IsHop reg linked (fun fuel => includeHit reg linked fuel i name seen) name seen := by
   unfold includeHit
   split
   · exact Or.inl fun _ => rfl
@@ -386,9 +386,9 @@ theorem includeHit_isHop (reg : Registry) (i : Stmt) (name : String) (seen : Lis
       exact Or.inr ⟨im, name, _, findModule_mem him, List.prefix_append _ _,
         Nat.add_lt_add_left (unseen_lt (findModule_mem him) (by simpa using hs)) _, fun _ => rfl⟩
 
-theorem viaOwner_isHop (reg : Registry) (root : Mod) (cond : Bool) (name : String)
+theorem viaOwner_isHop (reg : Registry) (linked : List Nat) (root : Mod) (cond : Bool) (name : String)
     (seen : List String) :
-    IsHop reg (fun fuel => viaOwner reg fuel root cond name seen) name seen := by
+    IsHop reg linked (fun fuel => viaOwner reg linked fuel root cond name seen) name seen := by
   unfold viaOwner
   split
   · split
@@ -409,19 +409,19 @@ theorem orElse_prefix {seen : List String} {a : Res} {k : List String → Res}
   · exact hk s ha
   · exact ha
 
-theorem IsHop.prefix {reg : Registry} {hit : Nat → Res} {name : String} {seen : List String}
-    (h : IsHop reg hit name seen) {fuel : Nat}
-    (ihF : ∀ root scope name seen, seen <+: (findGrouping reg fuel root scope name seen).2) :
+theorem IsHop.prefix {reg : Registry} {linked : List Nat} {hit : Nat → Res} {name : String} {seen : List String}
+    (h : IsHop reg linked hit name seen) {fuel : Nat}
+    (ihF : ∀ root scope name seen, seen <+: (findGrouping reg linked fuel root scope name seen).2) :
     seen <+: (hit fuel).2 := by
   rcases h with h | ⟨im, name', seen', _, hp, _, h⟩
   · rw [h]; exact List.prefix_refl _
   · rw [h]; exact hp.trans (ihF _ _ _ _)
 
-theorem prefix_all (reg : Registry) : ∀ fuel : Nat,
-    (∀ root scope name seen, seen <+: (findGrouping reg fuel root scope name seen).2) ∧
-    (∀ root scope name seen, seen <+: (fgScope reg fuel root scope name seen).2) ∧
-    (∀ imports name seen, seen <+: (fgImports reg fuel imports name seen).2) ∧
-    (∀ includes name seen, seen <+: (fgIncludes reg fuel includes name seen).2) := by
+theorem prefix_all (reg : Registry) (linked : List Nat) : ∀ fuel : Nat,
+    (∀ root scope name seen, seen <+: (findGrouping reg linked fuel root scope name seen).2) ∧
+    (∀ root scope name seen, seen <+: (fgScope reg linked fuel root scope name seen).2) ∧
+    (∀ imports name seen, seen <+: (fgImports reg linked fuel imports name seen).2) ∧
+    (∀ includes name seen, seen <+: (fgIncludes reg linked fuel includes name seen).2) := by
   intro fuel
   induction fuel with
   | zero =>
@@ -441,7 +441,7 @@ theorem prefix_all (reg : Registry) : ∀ fuel : Nat,
         · exact List.prefix_refl _
         · refine orElse_prefix (ihI _ _ _) fun s1 h1 => ?_
           refine orElse_prefix (h1.trans (ihN _ _ _)) fun s2 h2 => ?_
-          refine orElse_prefix (h2.trans ((viaOwner_isHop reg root _ name s2).prefix ihF))
+          refine orElse_prefix (h2.trans ((viaOwner_isHop reg linked root _ name s2).prefix ihF))
             fun s3 h3 => ?_
           exact h3.trans (ihS _ _ _ _)
     · intro imports name seen
@@ -449,35 +449,35 @@ theorem prefix_all (reg : Registry) : ∀ fuel : Nat,
       | nil => simp [fgImports]
       | cons i rest =>
         rw [fgImports_cons]
-        exact orElse_prefix ((importHit_isHop reg i name seen).prefix ihF)
+        exact orElse_prefix ((importHit_isHop reg linked i name seen).prefix ihF)
           fun s1 h1 => h1.trans (ihI _ _ _)
     · intro includes name seen
       cases includes with
       | nil => simp [fgIncludes]
       | cons i rest =>
         rw [fgIncludes_cons]
-        exact orElse_prefix ((includeHit_isHop reg i name seen).prefix ihF)
+        exact orElse_prefix ((includeHit_isHop reg linked i name seen).prefix ihF)
           fun s1 h1 => h1.trans (ihN _ _ _)
 
-theorem findGrouping_seen_prefix (reg : Registry) (fuel : Nat) (root : Mod) (scope : List Stmt)
+theorem findGrouping_seen_prefix (reg : Registry) (linked : List Nat) (fuel : Nat) (root : Mod) (scope : List Stmt)
     (name : String) (seen : List String) :
-    seen <+: (findGrouping reg fuel root scope name seen).2 :=
-  (prefix_all reg fuel).1 _ _ _ _
+    seen <+: (findGrouping reg linked fuel root scope name seen).2 :=
+  (prefix_all reg linked fuel).1 _ _ _ _
 
-theorem fgScope_seen_prefix (reg : Registry) (fuel : Nat) (root : Mod) (scope : List Stmt)
+theorem fgScope_seen_prefix (reg : Registry) (linked : List Nat) (fuel : Nat) (root : Mod) (scope : List Stmt)
     (name : String) (seen : List String) :
-    seen <+: (fgScope reg fuel root scope name seen).2 :=
-  (prefix_all reg fuel).2.1 _ _ _ _
+    seen <+: (fgScope reg linked fuel root scope name seen).2 :=
+  (prefix_all reg linked fuel).2.1 _ _ _ _
 
-theorem fgImports_seen_prefix (reg : Registry) (fuel : Nat) (imports : List Stmt)
+theorem fgImports_seen_prefix (reg : Registry) (linked : List Nat) (fuel : Nat) (imports : List Stmt)
     (name : String) (seen : List String) :
-    seen <+: (fgImports reg fuel imports name seen).2 :=
-  (prefix_all reg fuel).2.2.1 _ _ _
+    seen <+: (fgImports reg linked fuel imports name seen).2 :=
+  (prefix_all reg linked fuel).2.2.1 _ _ _
 
-theorem fgIncludes_seen_prefix (reg : Registry) (fuel : Nat) (includes : List Stmt)
+theorem fgIncludes_seen_prefix (reg : Registry) (linked : List Nat) (fuel : Nat) (includes : List Stmt)
     (name : String) (seen : List String) :
-    seen <+: (fgIncludes reg fuel includes name seen).2 :=
-  (prefix_all reg fuel).2.2.2 _ _ _
+    seen <+: (fgIncludes reg linked fuel includes name seen).2 :=
+  (prefix_all reg linked fuel).2.2.2 _ _ _
 
 /-! ## 3. Enough fuel: the result does not depend on the fuel -/
 
@@ -495,14 +495,14 @@ theorem length_ite_all_le (c : Bool) (n : Stmt) (k : String) :
   · exact Nat.zero_le _
 
 /-- The statement proved by induction on the fuel for `findGrouping`. -/
-def StableF (reg : Registry) (W fuel : Nat) : Prop :=
+def StableF (reg : Registry) (linked : List Nat) (W fuel : Nat) : Prop :=
   ∀ root scope name seen P, name.length + unseen reg seen ≤ P →
     (∀ s ∈ scope, s.subs.length ≤ W) → scope.length + W + 3 + P * (W + 4) ≤ fuel →
-    findGrouping reg (fuel + 1) root scope name seen = findGrouping reg fuel root scope name seen
+    findGrouping reg linked (fuel + 1) root scope name seen = findGrouping reg linked fuel root scope name seen
 
-theorem IsHop.stable {reg : Registry} {W : Nat} (hW : ∀ m ∈ reg.mods, m.stmt.subs.length ≤ W)
-    {hit : Nat → Res} {name : String} {seen : List String} (h : IsHop reg hit name seen)
-    {fuel P : Nat} (ihF : StableF reg W fuel) (hP : name.length + unseen reg seen ≤ P)
+theorem IsHop.stable {reg : Registry} {linked : List Nat} {W : Nat} (hW : ∀ m ∈ reg.mods, m.stmt.subs.length ≤ W)
+    {hit : Nat → Res} {name : String} {seen : List String} (h : IsHop reg linked hit name seen)
+    {fuel P : Nat} (ihF : StableF reg linked W fuel) (hP : name.length + unseen reg seen ≤ P)
     (hfuel : P * (W + 4) ≤ fuel) : hit (fuel + 1) = hit fuel := by
   rcases h with h | ⟨im, name', seen', him, _, hlt, h⟩
   · rw [h, h]
@@ -517,18 +517,18 @@ theorem IsHop.stable {reg : Registry} {W : Nat} (hW : ∀ m ∈ reg.mods, m.stmt
     · simp only [List.length_singleton]
       omega
 
-theorem stable_all (reg : Registry) (W : Nat) (hW : ∀ m ∈ reg.mods, m.stmt.subs.length ≤ W) :
+theorem stable_all (reg : Registry) (linked : List Nat) (W : Nat) (hW : ∀ m ∈ reg.mods, m.stmt.subs.length ≤ W) :
     ∀ fuel : Nat,
-    StableF reg W fuel ∧
+    StableF reg linked W fuel ∧
     (∀ root scope name seen P, name.length + unseen reg seen ≤ P →
       (∀ s ∈ scope, s.subs.length ≤ W) → scope.length + W + 2 + P * (W + 4) ≤ fuel →
-      fgScope reg (fuel + 1) root scope name seen = fgScope reg fuel root scope name seen) ∧
+      fgScope reg linked (fuel + 1) root scope name seen = fgScope reg linked fuel root scope name seen) ∧
     (∀ imports name seen P, name.length + unseen reg seen ≤ P →
       imports.length + 1 + P * (W + 4) ≤ fuel →
-      fgImports reg (fuel + 1) imports name seen = fgImports reg fuel imports name seen) ∧
+      fgImports reg linked (fuel + 1) imports name seen = fgImports reg linked fuel imports name seen) ∧
     (∀ includes name seen P, name.length + unseen reg seen ≤ P →
       includes.length + 1 + P * (W + 4) ≤ fuel →
-      fgIncludes reg (fuel + 1) includes name seen = fgIncludes reg fuel includes name seen) := by
+      fgIncludes reg linked (fuel + 1) includes name seen = fgIncludes reg linked fuel includes name seen) := by
   intro fuel
   induction fuel with
   | zero =>
@@ -547,28 +547,28 @@ theorem stable_all (reg : Registry) (W : Nat) (hW : ∀ m ∈ reg.mods, m.stmt.s
         have hn : n.subs.length ≤ W := hsc n (List.mem_cons_self ..)
         have hup : ∀ s ∈ up, s.subs.length ≤ W := fun s hs => hsc s (List.mem_cons_of_mem _ hs)
         simp only [List.length_cons] at hfuel
-        rw [fgScope_cons reg (fuel + 1), fgScope_cons reg fuel]
+        rw [fgScope_cons reg linked (fuel + 1), fgScope_cons reg linked fuel]
         split
         · rfl
-        · have hl1 := length_ite_all_le (isModKw n) n "import"
-          have hl2 := length_ite_all_le (isModKw n && !name.contains ':') n "include"
+        · have hl1 := length_ite_all_le (isModKw n && linked.contains root.seq) n "import"
+          have hl2 := length_ite_all_le (isModKw n && linked.contains root.seq && !name.contains ':') n "include"
           refine orElse_congr (ihI _ name seen P hP (by omega)) ?_
-          have h1 := fgImports_seen_prefix reg fuel
-            (if isModKw n then n.all "import" else []) name seen
-          generalize (fgImports reg fuel (if isModKw n then n.all "import" else []) name seen).2
+          have h1 := fgImports_seen_prefix reg linked fuel
+            (if isModKw n && linked.contains root.seq then n.all "import" else []) name seen
+          generalize (fgImports reg linked fuel (if isModKw n && linked.contains root.seq then n.all "import" else []) name seen).2
             = s1 at h1 ⊢
           have hP1 := unseen_mono (reg := reg) h1
           refine orElse_congr (ihN _ name s1 P (by omega) (by omega)) ?_
-          have h2 := fgIncludes_seen_prefix reg fuel
-            (if isModKw n && !name.contains ':' then n.all "include" else []) name s1
-          generalize (fgIncludes reg fuel
-            (if isModKw n && !name.contains ':' then n.all "include" else []) name s1).2
+          have h2 := fgIncludes_seen_prefix reg linked fuel
+            (if isModKw n && linked.contains root.seq && !name.contains ':' then n.all "include" else []) name s1
+          generalize (fgIncludes reg linked fuel
+            (if isModKw n && linked.contains root.seq && !name.contains ':' then n.all "include" else []) name s1).2
             = s2 at h2 ⊢
           have hP2 := unseen_mono (reg := reg) h2
-          have hop := viaOwner_isHop reg root (isModKw n && !name.contains ':') name s2
+          have hop := viaOwner_isHop reg linked root (isModKw n && !name.contains ':') name s2
           refine orElse_congr (hop.stable hW ihF (P := P) (by omega) (by omega)) ?_
-          have h3 := hop.prefix (fuel := fuel) (findGrouping_seen_prefix reg fuel)
-          generalize (viaOwner reg fuel root (isModKw n && !name.contains ':') name s2).2
+          have h3 := hop.prefix (fuel := fuel) (findGrouping_seen_prefix reg linked fuel)
+          generalize (viaOwner reg linked fuel root (isModKw n && !name.contains ':') name s2).2
             = s3 at h3 ⊢
           have hP3 := unseen_mono (reg := reg) h3
           exact ihS root up name s3 P (by omega) hup (by omega)
@@ -577,11 +577,11 @@ theorem stable_all (reg : Registry) (W : Nat) (hW : ∀ m ∈ reg.mods, m.stmt.s
       | nil => simp [fgImports]
       | cons i rest =>
         simp only [List.length_cons] at hfuel
-        rw [fgImports_cons reg (fuel + 1), fgImports_cons reg fuel]
-        have hop := importHit_isHop reg i name seen
+        rw [fgImports_cons reg linked (fuel + 1), fgImports_cons reg linked fuel]
+        have hop := importHit_isHop reg linked i name seen
         refine orElse_congr (hop.stable hW ihF (P := P) hP (by omega)) ?_
-        have h1 := hop.prefix (fuel := fuel) (findGrouping_seen_prefix reg fuel)
-        generalize (importHit reg fuel i name seen).2 = s1 at h1 ⊢
+        have h1 := hop.prefix (fuel := fuel) (findGrouping_seen_prefix reg linked fuel)
+        generalize (importHit reg linked fuel i name seen).2 = s1 at h1 ⊢
         have hP1 := unseen_mono (reg := reg) h1
         exact ihI rest name s1 P (by omega) (by omega)
     · intro includes name seen P hP hfuel
@@ -589,11 +589,11 @@ theorem stable_all (reg : Registry) (W : Nat) (hW : ∀ m ∈ reg.mods, m.stmt.s
       | nil => simp [fgIncludes]
       | cons i rest =>
         simp only [List.length_cons] at hfuel
-        rw [fgIncludes_cons reg (fuel + 1), fgIncludes_cons reg fuel]
-        have hop := includeHit_isHop reg i name seen
+        rw [fgIncludes_cons reg linked (fuel + 1), fgIncludes_cons reg linked fuel]
+        have hop := includeHit_isHop reg linked i name seen
         refine orElse_congr (hop.stable hW ihF (P := P) hP (by omega)) ?_
-        have h1 := hop.prefix (fuel := fuel) (findGrouping_seen_prefix reg fuel)
-        generalize (includeHit reg fuel i name seen).2 = s1 at h1 ⊢
+        have h1 := hop.prefix (fuel := fuel) (findGrouping_seen_prefix reg linked fuel)
+        generalize (includeHit reg linked fuel i name seen).2 = s1 at h1 ⊢
         have hP1 := unseen_mono (reg := reg) h1
         exact ihN rest name s1 P (by omega) (by omega)
 
@@ -616,7 +616,7 @@ theorem le_maxSubs {l : List Stmt} {s : Stmt} (h : s ∈ l) : s.subs.length ≤ 
 def groupingWidth (reg : Registry) (scope : List Stmt) : Nat :=
   maxSubs (scope ++ reg.mods.map (·.stmt))
 
-/-- Fuel that is enough for `findGrouping reg · root scope name seen`:
+/-- Fuel that is enough for `findGrouping reg linked · root scope name seen`:
 `scope.length + W + 3 + (name.length + unseen) * (W + 4)`. -/
 def groupingNeed (reg : Registry) (scope : List Stmt) (name : String) (seen : List String) : Nat :=
   scope.length + groupingWidth reg scope + 3 +
@@ -629,18 +629,18 @@ theorem unseen_le (reg : Registry) (seen : List String) : unseen reg seen ≤ re
   List.length_filter_le _ _
 
 /-- General form: any width bound `W` and potential bound `P` will do. -/
-theorem findGrouping_fuel_of_bounds {reg : Registry} {W P fuel : Nat} {root : Mod}
+theorem findGrouping_fuel_of_bounds {reg : Registry} {linked : List Nat} {W P fuel : Nat} {root : Mod}
     {scope : List Stmt} {name : String} {seen : List String}
     (hWm : ∀ m ∈ reg.mods, m.stmt.subs.length ≤ W) (hWs : ∀ s ∈ scope, s.subs.length ≤ W)
     (hP : name.length + unseen reg seen ≤ P)
     (hfuel : scope.length + W + 3 + P * (W + 4) ≤ fuel) :
-    findGrouping reg (fuel + 1) root scope name seen = findGrouping reg fuel root scope name seen :=
-  (stable_all reg W hWm fuel).1 root scope name seen P hP hWs hfuel
+    findGrouping reg linked (fuel + 1) root scope name seen = findGrouping reg linked fuel root scope name seen :=
+  (stable_all reg linked W hWm fuel).1 root scope name seen P hP hWs hfuel
 
 /-- One more unit of fuel changes nothing once `groupingNeed` is reached. -/
-theorem findGrouping_fuel {reg : Registry} {fuel : Nat} {root : Mod} {scope : List Stmt}
+theorem findGrouping_fuel {reg : Registry} {linked : List Nat} {fuel : Nat} {root : Mod} {scope : List Stmt}
     {name : String} {seen : List String} (h : groupingNeed reg scope name seen ≤ fuel) :
-    findGrouping reg (fuel + 1) root scope name seen = findGrouping reg fuel root scope name seen := by
+    findGrouping reg linked (fuel + 1) root scope name seen = findGrouping reg linked fuel root scope name seen := by
   refine findGrouping_fuel_of_bounds (W := groupingWidth reg scope) ?_ ?_ (Nat.le_refl _) h
   · intro m hm
     exact le_maxSubs (List.mem_append_right _ (List.mem_map_of_mem hm))
@@ -648,10 +648,10 @@ theorem findGrouping_fuel {reg : Registry} {fuel : Nat} {root : Mod} {scope : Li
     exact le_maxSubs (List.mem_append_left _ hs)
 
 /-- All fuels from `groupingNeed` on give the same result. -/
-theorem findGrouping_fuel_ge {reg : Registry} {fuel fuel' : Nat} {root : Mod} {scope : List Stmt}
+theorem findGrouping_fuel_ge {reg : Registry} {linked : List Nat} {fuel fuel' : Nat} {root : Mod} {scope : List Stmt}
     {name : String} {seen : List String} (h : groupingNeed reg scope name seen ≤ fuel)
     (h' : fuel ≤ fuel') :
-    findGrouping reg fuel' root scope name seen = findGrouping reg fuel root scope name seen := by
+    findGrouping reg linked fuel' root scope name seen = findGrouping reg linked fuel root scope name seen := by
   induction fuel' with
   | zero =>
     have : fuel = 0 := by omega
@@ -663,10 +663,10 @@ theorem findGrouping_fuel_ge {reg : Registry} {fuel fuel' : Nat} {root : Mod} {s
     · have : fuel = k + 1 := by omega
       rw [this]
 
-theorem findGrouping_fuel_any {reg : Registry} {fuel₁ fuel₂ : Nat} {root : Mod}
+theorem findGrouping_fuel_any {reg : Registry} {linked : List Nat} {fuel₁ fuel₂ : Nat} {root : Mod}
     {scope : List Stmt} {name : String} {seen : List String}
     (h₁ : groupingNeed reg scope name seen ≤ fuel₁) (h₂ : groupingNeed reg scope name seen ≤ fuel₂) :
-    findGrouping reg fuel₁ root scope name seen = findGrouping reg fuel₂ root scope name seen := by
+    findGrouping reg linked fuel₁ root scope name seen = findGrouping reg linked fuel₂ root scope name seen := by
   rw [findGrouping_fuel_ge (Nat.le_refl _) h₁, findGrouping_fuel_ge (Nat.le_refl _) h₂]
 
 /-- A bound without `seen` and without subtraction-like terms: every loaded module counts. -/
@@ -706,18 +706,18 @@ def s : Mod := { seq := 2, stmt := sS }
 def reg0 : Registry :=
   { mods := [m, n, s], modules := [("m", 0), ("n", 1)], subModules := [("s", 2)] }
 
-example : (findGrouping reg0 3 m [cS, mS] "g" []).1 = some (gS, m, [mS]) := by rfl
-example : (findGrouping reg0 2 m [cS, mS] "g" []).1 = none := by rfl
-example : fgIncludes reg0 5 [incS] "k" [] = (some (kS, s, [sS]), ["s"]) := by rfl
+example : (findGrouping reg0 [0, 1, 2] 3 m [cS, mS] "g" []).1 = some (gS, m, [mS]) := by rfl
+example : (findGrouping reg0 [0, 1, 2] 2 m [cS, mS] "g" []).1 = none := by rfl
+example : fgIncludes reg0 [0, 1, 2] 5 [incS] "k" [] = (some (kS, s, [sS]), ["s"]) := by rfl
 example : groupingNeed reg0 [cS, mS] "g" [] = 46 := by decide
 -- the hypothesis of `findGrouping_fuel` is satisfiable
-example : findGrouping reg0 47 m [cS, mS] "g" [] = findGrouping reg0 46 m [cS, mS] "g" [] :=
+example : findGrouping reg0 [0, 1, 2] 47 m [cS, mS] "g" [] = findGrouping reg0 [0, 1, 2] 46 m [cS, mS] "g" [] :=
   findGrouping_fuel (by decide)
-example : (findGrouping reg0 1000 m [cS, mS] "g" []).1 = some (gS, m, [mS]) := by
+example : (findGrouping reg0 [0, 1, 2] 1000 m [cS, mS] "g" []).1 = some (gS, m, [mS]) := by
   rw [findGrouping_fuel_ge (fuel := 46) (by decide) (by decide)]
   rfl
 
-theorem importHit_ex : importHit reg0 4 iS "q:h" [] = findGrouping reg0 4 n [nS] "h" [] := by
+theorem importHit_ex : importHit reg0 [0, 1, 2] 4 iS "q:h" [] = findGrouping reg0 [0, 1, 2] 4 n [nS] "h" [] := by
   have hp : (iS.argOf? "prefix").getD "" = "q" := rfl
   have hf : reg0.findModule false iS = some n := rfl
   unfold importHit
@@ -725,7 +725,7 @@ theorem importHit_ex : importHit reg0 4 iS "q:h" [] = findGrouping reg0 4 n [nS]
     String.startsWith_string_iff]
   rfl
 
-example : fgImports reg0 5 [iS] "q:h" [] = (some (hS, n, [nS]), []) := by
+example : fgImports reg0 [0, 1, 2] 5 [iS] "q:h" [] = (some (hS, n, [nS]), []) := by
   rw [fgImports_cons, importHit_ex]
   rfl
 end Ex
